@@ -19,7 +19,7 @@ LoopForms == {"none", "zero_to_var", "var_to_var", "two_dependent"}
 GuardForms == {"none", "cmp", "and", "statecmp"}
 KwForms   == {"none", "var", "sum", "sub", "ifexpr"}
 TimeForms == {"t", "t_plus_dt", "var"}
-Kinds     == {"assign", "acall0", "acall1", "acall2", "yield", "fail", "switch"}
+Kinds     == {"assign", "acall0", "acall1", "acall2", "yield", "fail", "switch", "raise", "restart"}
 
 VARIABLE s
 UsesLoopVar(x) == x.rhs = "subloop" \/ x.lhs \in {"subloop", "subsum"}
@@ -29,7 +29,7 @@ WellFormed(x) ==
     /\ x.kind # "assign" => x.lhs = "plain" /\ x.loops = "none"
     /\ x.kind \notin {"acall0", "acall1", "acall2"} => x.kw = "none"
     /\ x.kind # "yield" => x.time = "t"
-    /\ x.kind \in {"fail", "switch"} => x.rhs = "const"
+    /\ x.kind \in {"fail", "switch", "raise", "restart"} => x.rhs = "const"
     \* a subscripted assignee needs a loop in the builder unless the right-hand side is not a bare call
     /\ x.kind = "assign" /\ x.rhs \in {"call", "callkw"} /\ x.lhs # "plain" => x.loops # "none"
 
